@@ -35,6 +35,10 @@ func classifyExecErr(err error) string {
 		if len(cls) == 0 {
 			return "multiple"
 		}
+		if len(cls) == 1 {
+			// several errors of one class (distinct messages): the class is what is compared
+			return cls[0]
+		}
 		return "multiple:" + strings.Join(cls, "+")
 	case errors.As(err, &noOut):
 		return "noMoreOutputs"
